@@ -7,6 +7,8 @@ package main
 import (
 	"fmt"
 	"go/token"
+	"go/types"
+	"sort"
 
 	"golang.org/x/tools/go/ssa"
 )
@@ -57,6 +59,7 @@ func checkC10(c *Ctx) {
 		loopSurvivalRule(c, "C10.R4", P.Func("transport", l.fn), "transport."+l.fn, l.callee, nil)
 	}
 	c10Bounds(c)
+	c10R3(c)
 }
 
 func checkC11(c *Ctx) {
@@ -124,6 +127,7 @@ func checkC11(c *Ctx) {
 		return false, "a frame that fails to decode makes readMsg return an error, and that error ends the receive loop: one malformed frame stops every tube"
 	})
 	c11Bounds(c)
+	c11R5(c)
 	c.Rule("C11.R3", "proportionate allocation: every make([]T, n) in the application-protocol decoders whose size derives from bytes read from the peer is bounded by one datagram (65535) at the allocation (E3 on the E2 engine); reading through a growing buffer (io.CopyN) is the accepted idiom for larger fields")
 	rangeRule(c, "C11.R3", pkgFuncs(P, true, "codex", "userauth", "portforwarding", "common", "authgrants", "certs", "tubes"), allocObs,
 		"a peer-chosen length field sizes an allocation without a bound: a few bytes on the wire can make the reader allocate gigabytes", "peer-sized allocations in the decoders", 3)
@@ -232,4 +236,206 @@ func loopSurvivalRule(c *Ctx, rule string, fn *ssa.Function, name, callee string
 	if !bad {
 		c.OK(rule, name+"#loop", P.InstrPos(call), fmt.Sprintf("loop of %d blocks, %d exit edge(s), all at the header's state test or accepted", len(L), nExits))
 	}
+}
+
+// C10.R3 — optional pointers on the datagram path.
+func c10R3(c *Ctx) {
+	P := c.P
+	c.Rule("C10.R3", "optional pointers: readPacketLocked uses its key only on the non-nil edge; a session's readKey, writeKey and handle are written only by the handshake finishers, which store all three on every success path (a non-nil read key implies a non-nil handle); handleSessionMessage touches ss.handle only after readPacketLocked returned nil (E1 + E4)")
+	rd := P.Func("transport", "(*SessionState).readPacketLocked")
+	if rd == nil {
+		c.Undecided("C10.R3", "transport.(*SessionState).readPacketLocked", "function not found")
+		return
+	}
+	mf := ComputeMustFacts(rd)
+	key := rd.Params[3]
+	n := 0
+	bad := false
+	for _, r := range *key.Referrers() {
+		switch r.(type) {
+		case *ssa.Slice, *ssa.UnOp, *ssa.IndexAddr:
+			n++
+			if mf.NilAt(r, key) != nonNil {
+				bad = true
+				c.Fail("C10.R3", FuncName(rd)+"#key-nil", P.InstrPos(r), "the session key is dereferenced on a path where it was not found non-nil (a datagram for a session whose handshake has not finished would crash the endpoint)")
+			}
+		}
+	}
+	if !bad {
+		c.OK("C10.R3", FuncName(rd)+"#key-nil", P.Pos(rd.Pos()), fmt.Sprintf("%d use(s) of the key on the non-nil edge", n))
+	}
+	c.Floor("C10.R3", "dereferences of the key parameter in readPacketLocked", n, 1)
+	// stored together
+	fields := []*types.Var{P.Field("transport", "SessionState", "readKey"), P.Field("transport", "SessionState", "writeKey"), P.Field("transport", "SessionState", "handle")}
+	for _, f := range fields {
+		if f == nil {
+			c.Undecided("C10.R3", "transport.SessionState.readKey/writeKey/handle", "field not found")
+			return
+		}
+	}
+	finishers := map[string]bool{"transport.(*Server).finishHandshake": true, "transport.(*Client).clientHandshakeLocked": true}
+	for _, f := range fields {
+		for _, w := range P.FieldWrites(f) {
+			c.Check(finishers[FuncName(w.Fn)], "C10.R3", "write:SessionState."+f.Name()+"@"+FuncName(w.Fn), P.InstrPos(w.Instr), "written by a handshake finisher",
+				"SessionState."+f.Name()+" is written outside the handshake finishers: the key and the handle would no longer be published together, and a datagram that opens under an early key reaches a nil handle")
+		}
+	}
+	for name := range finishers {
+		parts := name[len("transport."):]
+		fn := P.Func("transport", parts)
+		if fn == nil {
+			c.Undecided("C10.R3", name, "function not found")
+			continue
+		}
+		fs := newFailSet()
+		ok := walkAll(c, "C10.R3", fn, func(p *Path) {
+			if !isSuccess(p) {
+				return
+			}
+			got := map[*types.Var]bool{}
+			p.ForEach(func(i int, ins ssa.Instruction) bool {
+				if st, ok := ins.(*ssa.Store); ok {
+					for _, f := range fields {
+						if endsInField(st.Addr, f, false) && !isNilConst(st.Val) {
+							got[f] = true
+						}
+					}
+				}
+				return true
+			})
+			if len(got) != 0 && len(got) != 3 {
+				fs.add("together", "a handshake finisher publishes the session keys and the handle only partially on a success path", p.Exit(), p)
+			}
+		})
+		if ok {
+			fs.report(c, "C10.R3", name, []string{"together"}, P.Pos(fn.Pos()), "readKey, writeKey and handle stored together")
+		}
+	}
+	// handle dereferenced only after authentication
+	fHandle := fields[2]
+	for _, h := range sessionMsgHandlers(c, "C10.R3") {
+		rp := readPacketCall(h)
+		if rp == nil {
+			continue
+		}
+		ev := errResultOf(rp)
+		mfh := ComputeMustFacts(h)
+		nh := 0
+		okAll := true
+		eachInstr(h, func(ins ssa.Instruction) {
+			fa, ok := ins.(*ssa.FieldAddr)
+			if !ok {
+				return
+			}
+			if u, ok := fa.X.(*ssa.UnOp); ok && endsInField(u, fHandle, false) {
+				nh++
+				if ev == nil || mfh.NilAt(ins, ev) != isNil {
+					okAll = false
+					c.Fail("C10.R3", FuncName(h)+"#handle-after-auth", P.InstrPos(ins), "ss.handle is dereferenced on a path where readPacketLocked did not return nil")
+				}
+			}
+		})
+		if okAll {
+			c.OK("C10.R3", FuncName(h)+"#handle-after-auth", P.InstrPos(rp), fmt.Sprintf("%d dereference(s) of ss.handle after a successful open", nh))
+		}
+	}
+}
+
+// C11.R5 — interfaces built from possibly-nil pointers (typed nil) on the receive path.
+func c11R5(c *Ctx) {
+	P := c.P
+	c.Rule("C11.R5", "no method call on a typed-nil interface: where an interface value can hold a pointer returned by a call whose error was discarded or not found nil, every method call on it is dominated by a comparison against the typed nil of that pointer type (or by the call's nil error) (E1 dominance over the tubes receive path)")
+	roots := []*ssa.Function{P.Func("tubes", "(*Muxer).receiver")}
+	if roots[0] == nil {
+		c.Undecided("C11.R5", "tubes.(*Muxer).receiver", "function not found")
+		return
+	}
+	parent := P.Reach(roots, func(caller, callee *ssa.Function) bool { return InModule(callee) && relPkg(callee) == "tubes" })
+	nSites := 0
+	var fns []*ssa.Function
+	for f := range parent {
+		fns = append(fns, f)
+	}
+	sort.Slice(fns, func(i, j int) bool { return FuncName(fns[i]) < FuncName(fns[j]) })
+	for _, fn := range fns {
+		if fn.Blocks == nil {
+			continue
+		}
+		var mf *MustFacts
+		eachInstr(fn, func(ins ssa.Instruction) {
+			call, ok := ins.(*ssa.Call)
+			if !ok || !call.Call.IsInvoke() {
+				return
+			}
+			// sources of the receiver through phis
+			seen := map[ssa.Value]bool{}
+			var risky []*ssa.MakeInterface
+			var walk func(v ssa.Value, d int)
+			walk = func(v ssa.Value, d int) {
+				if v == nil || d > 6 || seen[v] {
+					return
+				}
+				seen[v] = true
+				switch x := v.(type) {
+				case *ssa.Phi:
+					for _, e := range x.Edges {
+						walk(e, d+1)
+					}
+				case *ssa.MakeInterface:
+					if _, isPtr := x.X.Type().Underlying().(*types.Pointer); !isPtr {
+						return
+					}
+					src, k := fromCall(x.X)
+					if src == nil || k != 0 || errorResultIndex(src.Call.Signature()) < 0 {
+						return
+					}
+					if mf == nil {
+						mf = ComputeMustFacts(fn)
+					}
+					ev := errResultOf(src)
+					if ev != nil && mf.NilAt(x, ev) == isNil {
+						return
+					}
+					if mf.NilAt(x, x.X) == nonNil {
+						return
+					}
+					risky = append(risky, x)
+				}
+			}
+			walk(call.Call.Value, 0)
+			if len(risky) == 0 {
+				return
+			}
+			nSites++
+			if mf == nil {
+				mf = ComputeMustFacts(fn)
+			}
+			for _, mi := range risky {
+				guarded := false
+				for k, v := range mf.At(call) {
+					if k.op != token.EQL || k.y == nil || v {
+						continue
+					}
+					for _, pr := range [][2]ssa.Value{{k.x, k.y}, {k.y, k.x}} {
+						if pr[0] != call.Call.Value {
+							continue
+						}
+						if tn, ok := pr[1].(*ssa.MakeInterface); ok {
+							if cst, ok := tn.X.(*ssa.Const); ok && cst.Value == nil && types.Identical(cst.Type(), mi.X.Type()) {
+								guarded = true
+							}
+						}
+					}
+				}
+				src, _ := fromCall(mi.X)
+				if ev := errResultOf(src); ev != nil && mf.NilAt(call, ev) == isNil {
+					guarded = true
+				}
+				cons := fmt.Sprintf("%s#invoke:%s<-%s", FuncName(fn), call.Call.Method.Name(), shortCallee(&src.Call))
+				c.Check(guarded, "C11.R5", cons, P.InstrPos(call), "guarded against the typed nil of "+mi.X.Type().String(),
+					"a method is called on an interface that may hold the nil "+mi.X.Type().String()+" returned by "+shortCallee(&src.Call)+" (its error is discarded); a plain != nil test does not exclude a typed nil, so a peer frame arriving while that call fails makes the receiver dereference nil and the process dies")
+			}
+		})
+	}
+	c.Floor("C11.R5", "method calls on interfaces that may hold a pointer from an unchecked call", nSites, 1)
 }
